@@ -2,8 +2,10 @@ package wire
 
 import (
 	"context"
+	"fmt"
 	"io"
 	"net"
+	"os"
 
 	"github.com/lib/pq/oid"
 )
@@ -415,6 +417,50 @@ func VerifH04p() {
 }
 
 // ---------------------------------------------------------------------------
+// H04x — what the binary COPY row reader buffers does not grow with what the
+// client DECLARES (C04): the file header of the stream carries any 32-bit flags
+// and any 32-bit header-extension length; one hundred CopyData messages of 64
+// bytes (the message limit) follow. However the reader treats the header, the
+// window it keeps never exceeds the limit plus one allocation granule: the
+// client cannot make it hold the stream.
+// ---------------------------------------------------------------------------
+func VerifH04x() {
+	L := 64
+	flags, ext := nondetU32(), nondetU32()
+	first := vCat([]byte("PGCOPY\n\377\r\n\000"), vU32(flags), vU32(ext))
+	chunk := make([]byte, L)
+	for i := range chunk {
+		chunk[i] = 0x7f
+	}
+	input := vMsgBytes('d', first)
+	for k := 0; k < 100; k++ {
+		input = vCat(input, vMsgBytes('d', chunk))
+	}
+	input = vCat(input, vMsgBytes('c', nil))
+	w := vNewWorld(input, L)
+	cr := NewCopyReader(w.rd, w.wr, vTextColumns(1))
+	br, err := NewBinaryColumnReader(w.ctx, cr)
+	vAssert("column-reader-ok", err == nil)
+	largest := 0
+	var endErr error
+	for k := 0; k < 4; k++ {
+		_, endErr = br.Read(w.ctx)
+		if len(cr.Msg) > largest {
+			largest = len(cr.Msg)
+		}
+		if endErr != nil {
+			break
+		}
+	}
+	vAssert("reader-gives-up-or-ends", endErr != nil)
+	vAssert("window-bounded-by-the-limit-whatever-the-header-declares", largest <= L+4096)
+	if ext > 1<<20 {
+		vReach("huge-header-extension-declared")
+	}
+}
+
+// ---------------------------------------------------------------------------
+// H04d — a fresh connection sending B arbitrary bytes (C04)// ---------------------------------------------------------------------------
 // H04d — a fresh connection sending B arbitrary bytes (C04): startup, SSL and
 // cancel codes, truncated packets, absurd lengths. serve returns, nothing
 // panics, the connection is closed, and no callback sees fabricated data.
@@ -539,5 +585,75 @@ func VerifH04s() {
 	vAssert("second-connection-served-in-full", vWireOK(c2.out) && vCount(out, 'C') == 1 && vCount(out, 'Z') == 2 && c2.closed >= 1)
 	if len(hostile) >= 8 {
 		vReach("hostile-startup-sized")
+	}
+}
+
+// ---------------------------------------------------------------------------
+// H03f (C03, C04): ONE transient transport fault. A session's bytes arrive a
+// few at a time; exactly one Read of the transport — which one is the solver's
+// choice, so it falls between two messages, after a type byte, inside a length
+// word or inside a body — fails with an error of the deadline kind
+// (os.ErrDeadlineExceeded, bare or wrapped, as a connection wrapper with a
+// rolling read deadline produces it) and delivers nothing; later Reads are
+// served again. The first message's body carries the bytes of a complete Query
+// message of its own. Whatever the library does about the fault — end the
+// session, or go on — every message it acts on is one of the messages that
+// were sent, in their order: bytes of a body are never taken for a message.
+// ---------------------------------------------------------------------------
+func VerifH03f() {
+	var queries []string
+	parse := func(ctx context.Context, query string) (PreparedStatements, error) {
+		queries = append(queries, query)
+		stmt := func(ctx context.Context, dw DataWriter, params []Parameter) error { return dw.Complete("T") }
+		return Prepared(NewStatement(stmt)), nil
+	}
+	srv, err := NewServer(parse, MessageBufferSize(64))
+	vAssert("newserver-ok", err == nil)
+	inner := vMsgBytes('Q', vCStr([]byte("evil")))
+	// (the query string ends at the first zero byte — inside the embedded
+	// message's length word; what follows is surplus of the first message)
+	// where the embedded message starts relative to the transport's segments is
+	// the solver's choice too (0-2 bytes of padding before it)
+	lead := []byte("a /*")
+	switch vChoose(3) {
+	case 1:
+		lead = []byte("a  /*")
+	case 2:
+		lead = []byte("a   /*")
+	}
+	first := string(lead) + "Q"
+	second := "b"
+	input := vCat(vStartup(vKV([]byte("user"), []byte("u"))),
+		vMsgBytes('Q', vCStr(vCat(lead, inner, []byte("*/")))), vMsgBytes('Q', vCStr([]byte(second))))
+	conn := vNewConn(input)
+	conn.in.chunk = vParam("CHUNK", 3)
+	reads := (len(input) + conn.in.chunk - 1) / conn.in.chunk
+	conn.in.failOnce = 1 + vChoose(reads)
+	switch vChoose(3) {
+	case 0:
+		conn.in.failOnceErr = os.ErrDeadlineExceeded
+	case 1:
+		conn.in.failOnceErr = fmt.Errorf("verif: read: %w", os.ErrDeadlineExceeded)
+	default:
+		conn.in.failOnceErr = vTimeoutErr{}
+	}
+	srv.serve(context.Background(), conn) //nolint
+	vAssert("at-most-the-messages-that-were-sent", len(queries) <= 2)
+	for i, q := range queries {
+		if i == 0 {
+			vAssert("first-message-acted-on-is-the-first-sent", q == first)
+		}
+		if i == 1 {
+			vAssert("second-message-acted-on-is-the-second-sent", q == second)
+		}
+	}
+	body := conn.out
+	vAssert("output-wellformed", vWireOK(body))
+	vAssert("one-ReadyForQuery-per-message-acted-on-after-the-first", vCount(vTypes(body), 'Z') <= 1+len(queries))
+	if conn.in.failedOnce {
+		vReach("the-transient-fault-happened")
+		if len(queries) == 1 {
+			vReach("fault-after-the-first-message-was-acted-on")
+		}
 	}
 }
